@@ -164,7 +164,8 @@ pub fn run(_id: &str, p: &HashMap<String, String>, out: &mut Vec<String>) {
     let trace = p.get("trace").map(|s| s != "0").unwrap_or(false);
     // fault=k: the k-th SAT call of the whole history returns Unknown; the history stops at the call that unwinds
     let fault: usize = p.get("fault").map(|s| s.parse().unwrap()).unwrap_or(0);
-    rec::reset(fault, 200000, "cadical", trace);
+    let cap: usize = p.get("cap").map(|s| s.parse().unwrap()).unwrap_or(200000);
+    rec::reset(fault, cap, "cadical", trace);
     let mut shadow: AAFramework<usize> = AAFramework::default();
     let ctor = p.get("ctor").map(|s| s.as_str()).unwrap_or("");
     let mut s = match catch_unwind(AssertUnwindSafe(|| match ctor {
